@@ -2,8 +2,9 @@
 C17 driver: one line of harness/cmd/c17 → the model's observation and the Spec verdict on the implementation's one.
 
 input : kind=… root=… path=… exp=reject|accept|value|cast|disc|none at=<Go field path> fk=<kind> raw=s(text)
-        want=<value> env=m(…) props=m(file,m(…)) cfg=<value> sch=<schema>
-obs   : err=<classes> | late=<classes> | ok val=<decoded value> | ok disc=<bool,…>
+        want=<value> env=m(…) props=m(file,m(…)) cfg=<value>
+obs   : (err=<classes> | late=<classes> | ok val=<decoded value> | ok disc=<bool,…>) sch=<schema>
+        (the schema is an observation too: the reflection dump of the real types; the model echoes it)
 -/
 import Pandora.Drv.Util
 import Pandora.Model.C17
@@ -317,6 +318,7 @@ def boolsText (bs : List Bool) : String := ",".intercalate (bs.map toString)
 def parseObs (impl : String) : Obs :=
   if impl.startsWith "err=" || impl.startsWith "late=" then
     if (impl.splitOn "ctor").length > 1 || (impl.splitOn "other").length > 1 then .unknown else .rejected
+  else if impl.startsWith "PANIC" then .crashed
   else if impl.startsWith "ok val=" then .accepted (some (toDVal (parseTerm (impl.drop 7).toString)))
   else if impl.startsWith "ok disc=" then
     let t := (impl.drop 8).toString
@@ -334,12 +336,17 @@ def failKey (kind : String) (why : String) : String :=
     else if kind.startsWith "plugin-" then "plugin-position"
     else if kind == "cli" then "cli-reader"
     else "valid-config"
-  s!"fail:{base}:{why}"
+  if why == "panic" then "fail:decode-panic:panic" else s!"fail:{base}:{why}"
 
-def handle : Handler := fun input impl =>
+def handle : Handler := fun input implFull =>
   let kv := parseKV input
   let kind := getS kv "kind"
-  let sch := normalize (toSchema (parseTerm (getS kv "sch")))
+  let (impl, schText) :=
+    match implFull.splitOn " sch=" with
+    | [a, b] => (a, b)
+    | _ => (implFull, "")
+  if schText.isEmpty then ("-", "skip:no-schema-observed") else
+  let sch := normalize (toSchema (parseTerm schText))
   let cfg := toVal (parseTerm (getS kv "cfg"))
   let env := toEnv (parseTerm (getS kv "env" "m()")) (parseTerm (getS kv "props" "m()"))
   let isCli := kind == "cli"
@@ -386,6 +393,7 @@ def handle : Handler := fun input impl =>
   else
     match obs with
     | .unknown => ("-", verdict)
-    | _ => (modelObs, verdict)
+    | .crashed => ("-", verdict)
+    | _ => (modelObs ++ " sch=" ++ schText, verdict)
 
 end Pandora.Drv.C17
